@@ -982,7 +982,9 @@ func (self *_parser) parseRelationalExpression() ast.Expression {
 				Right:    self.parseShiftExpression(),
 			}
 		}
-		return left
+		// A private name is only allowed here as the left-hand side of 'in'
+		self.errorUnexpectedToken(self.token)
+		return &ast.BadExpression{From: left.Idx0(), To: left.Idx1()}
 	}
 	left := self.parseShiftExpression()
 
